@@ -189,6 +189,8 @@ impl<'tera> VirtualMachine<'tera> {
         while let Some((instr, _)) = state.chunk.expect("To have a chunk").get(ip) {
             // Current instruction index as span reference
             let current_ip = ip as u32;
+            #[cfg(feature = "tera_verif")]
+            crate::verif::yield_point(0);
 
             match instr {
                 Instruction::LoadConst(v) => {
@@ -317,6 +319,8 @@ impl<'tera> VirtualMachine<'tera> {
                     }
                 }
                 Instruction::WriteText(t) => {
+                    #[cfg(feature = "tera_verif")]
+                    crate::verif::yield_point(2);
                     if let Some(captured) = state.capture_buffers.last_mut() {
                         captured.write_all(t.as_bytes())?;
                     } else {
@@ -333,6 +337,8 @@ impl<'tera> VirtualMachine<'tera> {
                     }
 
                     if !self.autoescape_enabled() || top.is_safe() {
+                        #[cfg(feature = "tera_verif")]
+                        crate::verif::yield_point(2);
                         if let Some(captured) = state.capture_buffers.last_mut() {
                             top.format(captured)?;
                         } else {
@@ -342,6 +348,8 @@ impl<'tera> VirtualMachine<'tera> {
                         // Avoiding String as much as possible
                         state.escape_buffer.clear();
                         top.format(&mut state.escape_buffer)?;
+                        #[cfg(feature = "tera_verif")]
+                        crate::verif::yield_point(1);
                         // SAFETY: the buffer was just filled by Value::format, which only
                         // writes valid UTF-8
                         let escaped =
@@ -847,6 +855,8 @@ impl<'tera> VirtualMachine<'tera> {
                     };
 
                     if !self.autoescape_enabled() || val.is_safe() {
+                        #[cfg(feature = "tera_verif")]
+                        crate::verif::yield_point(2);
                         if let Some(captured) = state.capture_buffers.last_mut() {
                             val.format(captured)?;
                         } else {
@@ -855,6 +865,8 @@ impl<'tera> VirtualMachine<'tera> {
                     } else {
                         state.escape_buffer.clear();
                         val.format(&mut state.escape_buffer)?;
+                        #[cfg(feature = "tera_verif")]
+                        crate::verif::yield_point(1);
                         // SAFETY: the buffer was just filled by Value::format, which only
                         // writes valid UTF-8
                         let escaped =
